@@ -935,6 +935,32 @@ def run(ctx):
             uses['column'] |= '"name": "column"' in t
             uses['start'] |= 'Span::start' in t
         okd4 = all(uses.values())
+        # the position in the message is a position in the file only if the parser saw the file's text itself: between the
+        # read and parse_str nothing but borrows (no trimming, replacing, slicing — each shifts lines or columns)
+        IDENT = re.compile(r'(Deref>::deref|::as_str|::as_ref|::borrow|::clone|::as_mut_str|::to_string|::to_owned|String::from|convert::From<.*>>::from|convert::Into<.*>>::into|ToString::to_string|ToOwned::to_owned)$')
+        srcs = []
+        for c in cl:
+            for cc in c.calls(lambda r: (r['path'] or '').endswith('parser::parse_str')):
+                e = strip(c.expr_of_call(cc['term'])[2][0])
+                for _ in range(12):
+                    if e[0] == 'try':
+                        e = strip(e[1])
+                    elif e[0] == 'payload' and e[2] in ('Ok', 'Continue', 'Some'):
+                        e = strip(e[1])
+                    elif e[0] == 'call' and e[2] and IDENT.search(e[1]):
+                        e = strip(e[2][0])
+                    elif e[0] == 'var' and len(c.init_of(e[1])) == 1 and strip(c.init_of(e[1])[0]) != e:
+                        e = strip(c.init_of(e[1])[0])
+                    else:
+                        break
+                whole = e[0] == 'call' and re.search(r'std::fs::read_to_string$', e[1]) is not None
+                if not whole and e[0] in ('var', 'call'):
+                    # `let mut s = String::new(); file.read_to_string(&mut s)?`
+                    whole = (e[0] == 'call' and e[1].endswith('String::new')) and any(
+                        re.search(r'Read>?::read_to_string$', r2['path'] or '') for r2 in c.calls())
+                srcs.append((whole, show(e)[:80]))
+        ctx.ob('C12', 'R-EXPR', 'C12-D4|parser-sees-the-file-text', bool(srcs) and all(w for w, _ in srcs),
+               'what add_file hands to parse_str is the text read from the file, only borrowed on the way (line and column of a syntax error are positions in the file): %s' % [t_ for _, t_ in srcs], loc(af.span))
         ctx.ob('C12', 'R-EXPR', 'C12-D4', okd4,
                'add_file maps the parser error through span().start() and interpolates line and column into the context: %s' % uses, loc(af.span))
 
